@@ -1709,6 +1709,43 @@ class Normalizer:
             if par is not None:
                 self._replace_child(par, n, copy.deepcopy(n.args[0]))
             self.stats['idioms'] += 1
+        # run_in_executor(ex, f, a, b) / ex.submit(f, a, b) with f a method that was copied into this function (de-hoisted)
+        # and a, b plain locals: the explicit parameters are the closure variables the function had before it was hoisted
+        for n in list(ast.walk(fn)):
+            if not (isinstance(n, ast.Call) and isinstance(n.func, ast.Attribute) and n.func.attr in ('run_in_executor', 'submit')):
+                continue
+            k0 = 1 if n.func.attr == 'run_in_executor' else 0
+            if len(n.args) <= k0 or not isinstance(n.args[k0], ast.Name) or n.args[k0].id not in nested:
+                continue
+            fdef = nested[n.args[k0].id]
+            if not getattr(fdef, '_dehoisted_from', None):
+                continue
+            refs = [x for x in ast.walk(fn) if isinstance(x, ast.Name) and x.id == fdef.name and isinstance(x.ctx, ast.Load)]
+            extra = n.args[k0 + 1 :]
+            if len(refs) != 1 or not extra or n.keywords or not all(isinstance(v, ast.Name) for v in extra):
+                continue
+            a = fdef.args
+            pos_params = a.posonlyargs + a.args
+            if len(extra) > len(pos_params):
+                continue
+            body_names = _all_names(ast.Module(body=fdef.body, type_ignores=[]))
+            plan = [(pos_params[i], v.id) for i, v in enumerate(extra)]
+            if any(prm.arg != var and var in body_names for prm, var in plan):
+                continue
+            ren = {}
+            for prm, var in plan:
+                if prm.arg != var:
+                    ren[prm.arg] = var
+                for lst in (a.posonlyargs, a.args):
+                    if prm in lst:
+                        k_from_end = len(a.posonlyargs + a.args) - (a.posonlyargs + a.args).index(prm)
+                        if k_from_end <= len(a.defaults):
+                            del a.defaults[len(a.defaults) - k_from_end]
+                        lst.remove(prm)
+            if ren:
+                fdef.body = [_Subst(ren, {}).visit(st) for st in fdef.body]
+            n.args = n.args[: k0 + 1]
+            self.stats['idioms'] += 1
         parents = {}
         for n in ast.walk(fn):
             for c in ast.iter_child_nodes(n):
